@@ -257,6 +257,12 @@ def print_placeholder(self, placeholder: Optional[ImagePlaceholder]=None, image_
         placeholder.to_stream(ShellScriptBinaryIOHelper(self.shellscript_out), pos=pos, mode=mode, formatting=formatting, use_save_cursor=use_save_cursor, use_line_feeds=use_line_feeds)
         self.shellscript_out.write(S)
 '''
+# the C16 repair (fix: forget the tracked cursor position after printing a placeholder) adds one
+# assignment after the to_stream call; it does not touch the display stream
+PRINT_PLACEHOLDER_C16 = PRINT_PLACEHOLDER.replace(
+    "use_save_cursor=use_save_cursor, use_line_feeds=use_line_feeds)\n    if self.shellscript_out is not None:",
+    "use_save_cursor=use_save_cursor, use_line_feeds=use_line_feeds)\n    self.tracked_cursor_position = None\n    if self.shellscript_out is not None:")
+assert PRINT_PLACEHOLDER_C16 != PRINT_PLACEHOLDER
 GET_FORMATTING = '''
 def get_formatting(self, background: Optional[BackgroundLike]) -> tupimage.AdditionalFormatting:
     if background is None:
@@ -379,7 +385,7 @@ def gen_placeholder(repo, out):
     _, abs_lits = check_shape(find_func(cls, "to_stream_abs_position"), [ABS_POSITION], "to_stream_abs_position")
     _, cur_lits = check_shape(find_func(cls, "to_stream_at_cursor"), [AT_CURSOR], "to_stream_at_cursor")
     check_shape(find_func(cls, "to_stream"), [TO_STREAM], "to_stream")
-    check_shape(find_func(find_class(gt, "GraphicsTerminal"), "print_placeholder"), [PRINT_PLACEHOLDER], "GraphicsTerminal.print_placeholder")
+    check_shape(find_func(find_class(gt, "GraphicsTerminal"), "print_placeholder"), [PRINT_PLACEHOLDER, PRINT_PLACEHOLDER_C16], "GraphicsTerminal.print_placeholder")
 
     ttc = find_class(tt, "TupimageTerminal")
     _, gf_lits = check_shape(find_func(ttc, "get_formatting"), [GET_FORMATTING], "TupimageTerminal.get_formatting", keep_str=True)
